@@ -16,7 +16,7 @@ From PV Require Import Base.Prelude Spec.LuaTokens Spec.LuaGrammar Spec.LuaLex S
   Proofs.LuaLexFacts Proofs.SpecLexChunk Proofs.MinifyRelex Proofs.MinifyCount
   Proofs.FmtSpacesProofs Proofs.FmtLinesProofs Proofs.FmtChunksProofs Proofs.FmtRelexAuto Proofs.FmtRelexLex
   Proofs.ParserProofs Proofs.WriterCursor Proofs.AstWriterProofs Proofs.AstWriterTop.
-From PV Require Model.Lexer Model.ReqEmbedInst Proofs.LexerView Proofs.EchoProofs Proofs.EchoRelexSpec Proofs.LexerMain.
+From PV Require Model.Lexer Model.LexToken Proofs.LexerView Proofs.EchoProofs Proofs.EchoRelexSpec Proofs.LexerMain.
 From Coq Require Import Lia.
 
 Local Notation tis_trivia := LuaTokens.is_trivia.
@@ -348,7 +348,7 @@ Qed.
 End Rend.
 
 (* ====================================================================== from the source text *)
-Import ReqEmbedInst.
+Import LexToken.
 
 Lemma code_bytes s : tok_bytes s -> Forall byte (spec_code s).
 Proof.
@@ -400,24 +400,24 @@ Proof.
     rewrite E. exact R1.
 Qed.
 
-Lemma kc_kind k : kclass_of (LexerView.kind_of k) = kc k.
+Lemma kc_kind k : kclass_of_kind (LexerView.kind_of k) = kc k.
 Proof. destruct k; reflexivity. Qed.
 
-Lemma pkt_token_of_tok lt : pkt (token_of_tok lt) = (kclass_of (Lexer.t_kind lt), Lexer.tok_code lt).
+Lemma pkt_lex_token lt : pkt (lex_token lt) = (kclass_of_kind (Lexer.t_kind lt), Lexer.tok_code lt).
 Proof. reflexivity. Qed.
 
 (* the lexer's tokens, as the parser sees them, against the reference tokens *)
 Lemma agrees_corr ss0 lts :
   map (fun t => (Lexer.t_kind t, Lexer.tok_code t)) lts = map (fun s => (LexerView.kind_of (s_kind s), LexerView.spec_code s)) ss0 ->
-  Forall2 corr (map unpos ss0) (map token_of_tok lts) /\ map pkt (map token_of_tok lts) = map pks (map unpos ss0).
+  Forall2 corr (map unpos ss0) (map lex_token lts) /\ map pkt (map lex_token lts) = map pks (map unpos ss0).
 Proof.
   revert lts. induction ss0 as [|s ss IH]; intros lts H; destruct lts as [|lt lts]; try discriminate H.
   - split; [constructor | reflexivity].
   - cbn [map] in H. injection H as Hk Hc Hr. destruct (IH lts Hr) as [I1 I2]. split.
     + cbn [map]. constructor; [|exact I1]. split.
-      * cbn [tk token_of_tok]. rewrite Hk. apply kc_kind.
-      * cbn [tcode token_of_tok]. rewrite Hc. reflexivity.
-    + cbn [map]. rewrite I2. f_equal. rewrite pkt_token_of_tok, Hk, Hc, kc_kind. reflexivity.
+      * cbn [tk lex_token]. rewrite Hk. apply kc_kind.
+      * cbn [tcode lex_token]. rewrite Hc. reflexivity.
+    + cbn [map]. rewrite I2. f_equal. rewrite pkt_lex_token, Hk, Hc, kc_kind. reflexivity.
 Qed.
 
 Lemma view_eqb_refl a : view_eqb a a = true.
@@ -428,11 +428,11 @@ Qed.
 
 Theorem relex_text W : good_spaces W -> forall src ss0 lts root e,
   Forall byte src -> spec_lex src = Some ss0 -> Lexer.model_lex [src] = Ok lts ->
-  lua_parse (map token_of_tok lts) = Ok (root, e) -> consumed (map token_of_tok lts) e = true ->
-  writable (map token_of_tok lts) root = true ->
+  lua_parse (map lex_token lts) = Ok (root, e) -> consumed (map lex_token lts) e = true ->
+  writable (map lex_token lts) root = true ->
   exists out ss1 lts',
-    writer_text W (map token_of_tok lts) (view root) = Ok out /\ Forall byte out /\ spec_lex out = Some ss1 /\
-    Lexer.model_lex [out] = Ok lts' /\ same_code (map token_of_tok lts) (map token_of_tok lts') = true /\
+    writer_text W (map lex_token lts) (view root) = Ok out /\ Forall byte out /\ spec_lex out = Some ss1 /\
+    Lexer.model_lex [out] = Ok lts' /\ same_code (map lex_token lts) (map lex_token lts') = true /\
     cv (map pks (map unpos ss1)) = cv (map pks (map unpos ss0)).
 Proof.
   intros G src ss0 lts root e HB Hs Hm Hp Hc Hw.
@@ -440,7 +440,7 @@ Proof.
   rewrite Hm in Hm0. injection Hm0 as <-.
   destruct (agrees_corr ss0 lts Hcodes) as [Hcorr Hpk].
   destruct (EchoRelexSpec.spec_lex_chain src ss0 Hs) as [Hcr Hch].
-  set (ts := map token_of_tok lts) in *. set (ss := map unpos ss0) in *.
+  set (ts := map lex_token lts) in *. set (ss := map unpos ss0) in *.
   pose proof (chain_txt _ _ Hch) as Htxt.
   assert (Hok : Forall codeok ss).
   { unfold ss. pose proof (codes_crlf_ok src ss0 HB Hs) as H. clear -H. induction H; cbn [map]; constructor; assumption. }
@@ -460,4 +460,33 @@ Proof.
   exists out, ss1, lts'. split; [unfold writer_text; rewrite Hcs; reflexivity|]. split; [exact HBo|]. split; [exact Hs1|].
   split; [exact Hm'|]. rewrite Hu1. split; [|exact Hv].
   unfold same_code. rewrite !code_view_cv. fold ts. rewrite Hpk, Hpk', Hu1. fold ss. rewrite Hv. apply view_eqb_refl.
+Qed.
+
+(* the statements of Properties/C09.v *)
+Theorem luafmt_same_code w src ss lts root e :
+  Forall byte src -> spec_lex src = Some ss -> Lexer.model_lex [src] = Ok lts ->
+  lua_parse (map lex_token lts) = Ok (root, e) -> consumed (map lex_token lts) e = true ->
+  writable (map lex_token lts) root = true ->
+  exists out ss' lts',
+    writer_text (fmt_spaces w) (map lex_token lts) (view root) = Ok out /\ Forall byte out /\
+    spec_lex out = Some ss' /\ Lexer.model_lex [out] = Ok lts' /\
+    same_code (map lex_token lts) (map lex_token lts') = true.
+Proof.
+  intros HB Hs Hm Hp Hc Hw.
+  destruct (relex_text (fmt_spaces w) (fmt_good w) src ss lts root e HB Hs Hm Hp Hc Hw) as (out & ss1 & lts' & H1 & H2 & H3 & H4 & H5 & _).
+  exists out, ss1, lts'. auto.
+Qed.
+
+Theorem echo_same_code src ss lts root e :
+  Forall byte src -> spec_lex src = Some ss -> Lexer.model_lex [src] = Ok lts ->
+  lua_parse (map lex_token lts) = Ok (root, e) -> consumed (map lex_token lts) e = true ->
+  writable (map lex_token lts) root = true ->
+  exists out ss' lts',
+    writer_text echo_spaces (map lex_token lts) (view root) = Ok out /\ Forall byte out /\
+    spec_lex out = Some ss' /\ Lexer.model_lex [out] = Ok lts' /\
+    same_code (map lex_token lts) (map lex_token lts') = true.
+Proof.
+  intros HB Hs Hm Hp Hc Hw.
+  destruct (relex_text echo_spaces echo_good src ss lts root e HB Hs Hm Hp Hc Hw) as (out & ss1 & lts' & H1 & H2 & H3 & H4 & H5 & _).
+  exists out, ss1, lts'. auto.
 Qed.
